@@ -154,8 +154,13 @@ pub fn check_rel(kind: &str, o: &Opts, x: &str) -> Result<Option<(String, bool)>
         Some(t) => t,
         None => return Ok(None),
     };
-    let a = html(x, o)?;
-    let b = html(&tx, o)?;
+    // a panic on both sides is C01's subject; a panic on one side only is a difference the rewrite made
+    let (a, b) = match (html(x, o), html(&tx, o)) {
+        (Ok(a), Ok(b)) => (a, b),
+        (Err(e), Err(_)) => return Err(e),
+        (Ok(_), Err(_)) => return Ok(Some((format!("html(x) renders, html({}(x)) panics", kind), false))),
+        (Err(_), Ok(_)) => return Ok(Some((format!("html(x) panics, html({}(x)) renders", kind), false))),
+    };
     let identical = a == b;
     let ok = match kind {
         // the HTML may differ only by the same rewrite inside literal content
